@@ -9,13 +9,14 @@ ASSUMPTIONS = [
     "the homomorphism laws (length, concatenation, idempotence) are obtained from the stronger per-position claim "
     "out[i] == representative(group(in[i])) proved for every position of symbolic sequences, plus representative in its own group",
     "user alphabets: dictionaries over the 20 keys with symbolic presence and symbolic values from the 20 letters and the non-letters "
-    "'a', 'X', 'AA', '', 1; extra keys are not modelled; the empty dictionary means 'no user alphabet' (API default) and is not asserted to be rejected",
+    "'a', 'X', 'B', 'AA', '', 1; two keys beyond the 20 letters ('X', 'B') may be present with any of those values; the empty dictionary means 'no user alphabet' (API default) and is not asserted to be rejected",
     "integer alphabet sizes only (0..25); non-integer spellings are not asserted",
 ]
-OUTSIDE = ["sequence lengths above the bound", "non-integer alphabetSize arguments", "user dictionaries with keys beyond the 20 letters"]
+OUTSIDE = ["sequence lengths above the bound", "non-integer alphabetSize arguments", "user dictionaries with extra keys other than 'X' and 'B'"]
 NMAX = {"quick": 5, "thorough": 10}
 ITEM_TIMEOUT = {"quick": 400, "thorough": 1500}
-BADVALS = ["a", "X", "AA", "", 1]
+BADVALS = ["a", "X", "B", "AA", "", 1]
+EXTRA_KEYS = ["X", "B"]
 
 
 def bounds(tier):
@@ -121,9 +122,15 @@ def run_item(item):
     for a in AA:
         I.solver.add(valv[a] >= 0, valv[a] < len(dom))
         entries[a] = (pres[a], FD([(valv[a] == k, dom[k]) for k in range(len(dom))]))
+    # keys beyond the 20 letters may be present too (they must not make an invalid mapping acceptable)
+    xpres = {a: z3.Bool("has_extra_%s" % a) for a in EXTRA_KEYS}
+    xval = {a: z3.Int("val_extra_%s" % a) for a in EXTRA_KEYS}
+    for a in EXTRA_KEYS:
+        I.solver.add(xval[a] >= 0, xval[a] < len(dom))
+        entries[a] = (xpres[a], FD([(xval[a] == k, dom[k]) for k in range(len(dom))]))
     ud = SymDict(entries)
     allpres = z3.And(*[pres[a] for a in AA])
-    nonepres = z3.Not(z3.Or(*[pres[a] for a in AA]))
+    nonepres = z3.Not(z3.Or(*([pres[a] for a in AA] + [xpres[a] for a in EXTRA_KEYS])))
     allvalid = z3.And(*[valv[a] < 20 for a in AA])
 
     def dict_of(m):
@@ -131,6 +138,9 @@ def run_item(item):
         for a in AA:
             if z3.is_true(m.eval(pres[a], model_completion=True)):
                 d[a] = dom[m.eval(valv[a], model_completion=True).as_long()]
+        for a in EXTRA_KEYS:
+            if z3.is_true(m.eval(xpres[a], model_completion=True)):
+                d[a] = dom[m.eval(xval[a], model_completion=True).as_long()]
         return dict(userdict=d)
 
     def thunk():
@@ -154,7 +164,7 @@ def run_item(item):
             # expected image: dict[c_i] when the dictionary is used, c_i itself for the empty dictionary
             exp_user = None
             for a in reversed(AA):
-                ev = entries[a][1]
+                ev = I.prune(entries[a][1])
                 exp_user = ev if exp_user is None else I.merge(vs[i] == IDX[a], ev, exp_user)
             exp_none = FD([(vs[i] == IDX[a], a) for a in AA])
             eq_user = I.truth(I.binop(_ast.Eq(), ochars[i], exp_user))
